@@ -275,7 +275,7 @@ mod verif_c14_twins {
 
     // ================================================================ instances
 
-    //@ obligation C14 C14.Gdt_empty.null_descriptor_only bounded="MAX in {1,2,3,8,9}"
+    //@ obligation C14 C14.Gdt_empty.null_descriptor_only bounded="MAX in {0,1,2,3,8,9}"
     //@ obligation C14 C14.Gdt_limit.eight_times_len_minus_one bounded="MAX in {1,2,3,8,9}"
     #[kani::proof]
     fn c14_twin_gdt_empty() {
@@ -288,7 +288,7 @@ mod verif_c14_twins {
     }
 
     // mode B of empty(): MAX == 0 is rejected
-    //@ obligation C14 C14.Gdt_empty.null_descriptor_only bounded="MAX in {0}"
+    //@ obligation C14 C14.Gdt_empty.null_descriptor_only bounded="MAX in {0,1,2,3,8,9}"
     #[kani::proof]
     #[kani::should_panic]
     fn c14_twin_gdt_empty_panics_max0() {
